@@ -42,6 +42,10 @@ def enum_cases(tier):
 
 
 def _dist(np, jaccarddist, x, dx, y, dy, case):
+	if (len(x) + 2 * len(y)) % 3 == 0:
+		# NumPy's other names for the 64-bit types (C long long: equal dtype, distinct scalar type)
+		dx = {'i8': 'q', 'u8': 'Q'}.get(str(dx), dx)
+		dy = {'i8': 'q', 'u8': 'Q'}.get(str(dy), dy)
 	try:
 		d = jaccarddist(np.array(x, dtype=dx), np.array(y, dtype=dy))
 	except Exception as e:
